@@ -34,7 +34,7 @@ def main():
         return selftest.run()
     if cmd == "setup":
         from vlib import build
-        vs = ["asan", "asan-small", "asan++", "asan++-small", "plain", "vf", "vf-plain", "nohook",
+        vs = ["asan", "asan-small", "asan++", "asan++-small", "plain", "vf", "vf-small", "vf-plain", "nohook",
               "cont", "cont-small", "cont++", "cont++-small"]
         build.build_many(vs)
         print("setup: built", " ".join(vs))
